@@ -49,6 +49,9 @@ func (g *schemaGenerator) generateRootType() error {
 
 	for _, name := range sortDefinitionsByName(g.schema.Definitions) {
 		def := g.schema.Definitions[name]
+		if def == nil {
+			return fmt.Errorf("%w: definition %q", errNullSchema, name)
+		}
 
 		_, err := g.generateDeclaredType(def, newNameScope(g.caser.Identifierize(name)))
 		if err != nil {
@@ -488,6 +491,12 @@ func (g *schemaGenerator) generateType(t *schemas.Type, scope nameScope) (codege
 		return g.generateReferencedType(t)
 	}
 
+	for _, sub := range append(append([]*schemas.Type{}, t.AllOf...), t.AnyOf...) {
+		if sub == nil {
+			return nil, errNullSchema
+		}
+	}
+
 	typeName, typePtr := g.determineTypeName(t)
 
 	switch typeName {
@@ -733,6 +742,10 @@ func (g *schemaGenerator) addStructField(
 	requiredNames map[string]bool,
 ) error {
 	prop := t.Properties[name]
+	if prop == nil {
+		return fmt.Errorf("%w: property %q", errNullSchema, name)
+	}
+
 	isRequired := requiredNames[name]
 
 	fieldName := g.caser.Identifierize(name)
@@ -1152,6 +1165,10 @@ func (g *schemaGenerator) resolveRefs(types []*schemas.Type) ([]*schemas.Type, e
 	resolvedTypes := make([]*schemas.Type, 0, len(types))
 
 	for _, typ := range types {
+		if typ == nil {
+			return nil, errNullSchema
+		}
+
 		resolvedType, err := g.resolveRef(typ)
 		if err != nil {
 			return nil, fmt.Errorf("could not resolve ref %q: %w", typ.Ref, err)
